@@ -85,21 +85,27 @@ theorem pythiaStage_opsNumbered (cfg : Cfg) (op0 : SugOp) (st : Study) (need : N
     · exact failOp_opsNumbered op0 _ h2
     · exact createStage_opsNumbered cfg op0 _ _ _ _ h2
 
+theorem suggestRest_opsNumbered (cfg : Cfg) (op0 : SugOp) (st : Study) (client : String) (count : Nat)
+    (alg : AlgOutcome) (h : OpsNumbered st) : OpsNumbered (suggestRest cfg op0 st client count alg).2 := by
+  unfold suggestRest
+  simp only
+  split
+  · exact finishOp_opsNumbered _ _ _ h
+  · have h2 : ∀ as : List Trial, OpsNumbered (as.foldl Study.putTrial st) :=
+      fun as => opsNumbered_of_sugOps_eq (foldl_putTrial_sugOps as _) h
+    split
+    · exact finishOp_opsNumbered _ _ _ (h2 _)
+    · exact pythiaStage_opsNumbered cfg _ _ _ _ alg (h2 _)
+
 theorem suggestBody_opsNumbered (cfg : Cfg) (st : Study) (client : String) (count : Nat) (alg : AlgOutcome)
     (h : OpsNumbered st) : OpsNumbered (suggestBody cfg st client count alg).2 := by
   unfold suggestBody
   simp only
   split
-  · exact h
-  · have h1 := opsNumbered_append_new st client h
-    split
-    · exact finishOp_opsNumbered _ _ _ h1
-    · have h2 : ∀ as : List Trial, OpsNumbered (as.foldl Study.putTrial
-          { st with sugOps := st.sugOps ++ [{ client := client, num := (opsOf st client).length + 1, done := false, result := .none }] }) :=
-        fun as => opsNumbered_of_sugOps_eq (foldl_putTrial_sugOps as _) h1
-      split
-      · exact finishOp_opsNumbered _ _ _ (h2 _)
-      · exact pythiaStage_opsNumbered cfg _ _ _ _ alg (h2 _)
+  · split
+    · exact suggestRest_opsNumbered cfg _ st client count alg h
+    · exact h
+  · exact suggestRest_opsNumbered cfg _ _ client count alg (opsNumbered_append_new st client h)
 
 /-- **operation numbering**: for every history (with operation records deleted together with their
     study) the operations of every (study, worker) are numbered 1..k in creation order -/
